@@ -129,10 +129,14 @@ def r2_flag_carried(cx):
     zb = F.body(fz)
     wcs = zb.calls(r"ClusterWriterProxy::<.*>::write_cluster$")
     got = {}
+    feasible, _ = zb.explore()          # constants of (inlined) helper arguments decide which slot each site takes
     for i, t in wcs:
-        o = zb.origins(t["args"][1])
-        slot = "raw" if ("field", "raw_open_cluster") in o else ("comp" if ("field", "comp_open_cluster") in o else "?")
-        got[slot] = op_const_val(t["args"][2])
+        if i not in feasible:
+            continue
+        o = zb.origins(t["args"][1], blocks=feasible)
+        raw, comp = ("field", "raw_open_cluster") in o, ("field", "comp_open_cluster") in o
+        slot = "raw" if raw and not comp else ("comp" if comp and not raw else "?")
+        got[slot] = op_const_deep(zb, t["args"][2])
     cx.ob("R2", "R2/finalize-slots", got == {"raw": False, "comp": True}, fz, "finalize flushes the raw slot with compressed=false and the compressed slot with compressed=true (%s)" % got)
 
 
